@@ -694,6 +694,26 @@ pub fn run(seed: u64, count: usize, tier: &str, sink: &mut Sink) {
     if tier == "thorough" {
         exhaustive(sink);
     }
+    // deep block-level nesting, indented: the indentation grows past any fixed buffer (seed C19h:
+    // a 64-space buffer sliced out of range beyond 32 levels — a panic)
+    for k in 0..(if tier == "quick" { 3 } else { 8 }) {
+        let t = with_vocab(|hv| {
+            use GValue::*;
+            let depth = 30 + 6 * k + rng.below(6);
+            let div = hv.id("div", 0);
+            let mut t = match rng.below(3) {
+                0 => GTree::new(Element(hv.id("hr", 0)), vec![]),
+                1 => GTree::new(Element(hv.id("p", 0)), vec![GTree::leaf(Text("x".into()))]),
+                _ => GTree::leaf(Comment("c".into())),
+            };
+            for _ in 0..depth {
+                t = GTree::new(Element(div), vec![t]);
+            }
+            GTree::new(Document, vec![GTree::new(Element(hv.id("html", 0)), vec![GTree::new(Element(hv.id("body", 0)), vec![t])])])
+        });
+        sink.stat("family.deep-nesting");
+        run_tree(&t, &[], &[HParams { cdata: vec![], indent: Some(vec![]) }, HParams::plain()], sink);
+    }
     let search = tier == "search";
     for _ in 0..count {
         let (t, params) = with_vocab(|hv| {
